@@ -1284,12 +1284,13 @@ class Gen:
                     cookie, et = hint
                     es = self.size_align(et)[0]
                     cm = re.fullmatch(r'(\d+)(ULL|U)?', args[0][0])
-                    total = int(cm.group(1)) if cm else self.opts.new_array_max
+                    lim = min(self.opts.new_array_max, 64) if et == ('int', 8) else self.opts.new_array_max   # byte arrays stay field-sensitive (<= 64)
+                    total = int(cm.group(1)) if cm else lim
                     k = max(1, (total - cookie) // es)
                     at = ('lstruct', ((('int', 64),) if cookie else ()) + (('array', k, et),), False)
                     dn = fg.lname(d); fg.decls[dn] = cg.ctype(rt); fg.vtypes[d] = rt
                     if not cm:
-                        code.append('if (%s > %dULL) { VERIF_CHECK(0, "bound: operator new[] request larger than --new-array-max"); VERIF_ASSUME(0); }' % (args[0][0], self.opts.new_array_max))
+                        code.append('if (%s > %dULL) { VERIF_CHECK(0, "bound: operator new[] request larger than --new-array-max"); VERIF_ASSUME(0); }' % (args[0][0], lim))
                     code.append('%s = (%s)malloc(sizeof(%s)); VERIF_ASSUME(%s != 0);' % (dn, cg.ctype(rt), cg.ctype(at), dn))
                     result = ('stmt', None)
             if result is None:
@@ -1317,7 +1318,7 @@ class Gen:
             argexprs = self.byval_args(fg, args, code)
             fty = ('func', rt, tuple(t for _, t, _ in args), False)
             if va_sig is not None: fty = ('func', rt, va_sig[0], va_sig[1])
-            cands = self.indirect_candidates(fg, callee_local, fty) if callee_local else None
+            cands = self.indirect_candidates(fg, callee_local, fty, 1 if (args and 'sret' in args[0][2]) else 0) if callee_local else None
             if cands is None or self.opts.no_devirt:
                 call = '((%s)%s)(%s)' % (cg.functype_name(fty), callee_expr, ', '.join(argexprs))
                 result = ('expr', call)
@@ -1398,6 +1399,10 @@ class Gen:
     def contains_struct(self, a, b, depth=0):
         """struct type a is b or has b among its (transitive) by-value members"""
         if a == b: return True
+        if a[0] == 'struct' and b[0] == 'struct':
+            # X.base (tail-padding variant of a base class) and X.NN (LLVM's duplicate of the same C++ type) are X
+            canon = lambda n: re.sub(r'(\.base)?(\.\d+)?$', '', n)
+            if canon(a[1]) == canon(b[1]): return True
         if depth > 12: return False
         if a[0] == 'struct':
             ent = self.mod.structs.get(a[1])
@@ -1406,10 +1411,10 @@ class Gen:
         if a[0] == 'lstruct': return any(self.contains_struct(f, b, depth + 1) for f in a[1])
         if a[0] == 'array': return self.contains_struct(a[2], b, depth + 1)
         return False
-    def this_compat(self, fdef, fty):
+    def this_compat(self, fdef, fty, this_idx=0):
         """virtual call through static type T can only reach methods of classes that contain T as a base subobject"""
-        if not fty[2] or not fdef['params']: return True
-        st = fty[2][0]; ct = fdef['params'][0][0]
+        if len(fty[2]) <= this_idx or len(fdef['params']) <= this_idx: return True
+        st = fty[2][this_idx]; ct = fdef['params'][this_idx][0]     # `this` follows the sret slot when there is one
         if st[0] != 'ptr' or ct[0] != 'ptr': return True
         if st[1][0] != 'struct' or ct[1][0] != 'struct': return True
         # overrider in a derived class (ct contains st) or implementation inherited from a base (st contains ct)
@@ -1482,7 +1487,7 @@ class Gen:
                         if k == 'glob' and v[1:].strip('"') in self.mod.funcs: at.add(v[1:].strip('"'))
         self._at = at
         return at
-    def indirect_candidates(self, fg, callee_local, fty):
+    def indirect_candidates(self, fg, callee_local, fty, this_idx=0):
         """candidate targets of an indirect call. virtual-call pattern -> functions in that vtable slot;
         otherwise every address-taken function with a compatible signature. Completeness is asserted at
         the call site (unknown target = assertion failure), so a too-small set is never silent."""
@@ -1531,7 +1536,7 @@ class Gen:
                 if idx < len(arr) and arr[idx] is not None:
                     fn = arr[idx]
                     fdef = self.mod.funcs.get(fn)
-                    if fdef and self.sig_compat(fdef, fty) and fn not in cands and self.this_compat(fdef, fty): cands.append(fn)
+                    if fdef and self.sig_compat(fdef, fty) and fn not in cands and self.this_compat(fdef, fty, this_idx): cands.append(fn)
             # vtables are only referenced by constructors: no live vtable with a compatible entry means no object
             # of such a class can exist on any path from the entry point -> empty set (guarded by the check)
             return cands
